@@ -38,6 +38,21 @@ def extra_cases(ctx, rng):
                 L.append(G.op(0, kind, k, rng.choice(["V", "W"]), 1))
         L.append("snap")
         out.append(({"abs": "history-%d" % n, "rs": rs, "w": w, "contents": [], "op": ("history",), "ck": ck}, L))
+    # a sharded read-only level holding the SAME key in both of its candidate shards (left by racing
+    # writers): lookups through it must not "tidy up"
+    for w in (None, ("plain", 5), ("sharded", 3, 9)):
+        for nsh in (2, 3):
+            rs = (("sharded", nsh),)
+            k = keys[1]
+            L = G.header(w, rs, "none")
+            L.append(G.plant(G.key_path(rs[0], "r0", k, 0), "A", mtime=G.T0 + 3))
+            L.append(G.plant(G.key_path(rs[0], "r0", k, 1), "A", mtime=G.T0 + 4))
+            L.append("snap")
+            L += [G.NOFIRE, G.op(0, "roget", k), G.NOFIRE, G.op(0, "rotouch", k)]
+            if w:
+                L += [G.NOFIRE, G.op(0, "get", k), G.NOFIRE, G.op(0, "ensure", k, "val:P:1"), G.NOFIRE, G.op(0, "gou", k, "accept", 1, "val:P:1")]
+            L.append("snap")
+            out.append(({"abs": "duplicate-in-both-shards-%s-%d" % (w[0] if w else "ro", nsh), "rs": rs, "w": w, "contents": [], "op": ("history",), "ck": "none"}, L))
     # large read-only entries (a size-dependent fast path must not share the inode with the
     # write side), still writable by their owner (0644), promoted then exercised on the write side
     n = 0
